@@ -14,6 +14,7 @@ from pycoin.ecdsa.Curve import Curve
 from pycoin.ecdsa.rfc6979 import deterministic_generate_k
 
 PROP = "C01"
+EXTRA_PROPS = ["C01compose"]   # composition theorems (see DESIGN.md section 0)
 DRIVER = "C01"
 INTERACTIVE = True
 
